@@ -4,6 +4,7 @@
  *   FIO_RFAIL=k      after k bytes have been delivered, read(0) fails with EIO
  *   FIO_WFAIL=k      write(1) accepts k bytes in total (short write at the boundary), then ENOSPC
  *   FIO_WSHORT=n     every write(1) accepts at most n bytes
+ *   FIO_WERRNO=e / FIO_RERRNO=e   the errno of the injected write / read fault (default ENOSPC / EIO)
  */
 #define _GNU_SOURCE
 #include <dlfcn.h>
@@ -16,7 +17,7 @@ static ssize_t (*real_read)(int, void *, size_t);
 static ssize_t (*real_write)(int, const void *, size_t);
 static int inited;
 static long rseg[4096]; static int nseg, segi;
-static long rchunk = -1, rfail = -1, wfail = -1, wshort = -1;
+static long rchunk = -1, rfail = -1, wfail = -1, wshort = -1, werrno = ENOSPC, rerrno = EIO;
 static long rdone, wdone;
 
 static void init(void) {
@@ -34,6 +35,8 @@ static void init(void) {
     if ((s = getenv("FIO_RFAIL"))) rfail = atol(s);
     if ((s = getenv("FIO_WFAIL"))) wfail = atol(s);
     if ((s = getenv("FIO_WSHORT"))) wshort = atol(s);
+    if ((s = getenv("FIO_WERRNO"))) werrno = atol(s);
+    if ((s = getenv("FIO_RERRNO"))) rerrno = atol(s);
 }
 
 ssize_t read(int fd, void *buf, size_t count) {
@@ -43,7 +46,7 @@ ssize_t read(int fd, void *buf, size_t count) {
     if (segi < nseg) { if ((size_t)rseg[segi] < want) want = rseg[segi]; segi++; }
     else if (rchunk > 0 && (size_t)rchunk < want) want = rchunk;
     if (rfail >= 0) {
-        if (rdone >= rfail) { errno = EIO; return -1; }
+        if (rdone >= rfail) { errno = rerrno; return -1; }
         if ((long)want > rfail - rdone) want = rfail - rdone;
     }
     size_t got = 0;
@@ -63,7 +66,7 @@ ssize_t write(int fd, const void *buf, size_t count) {
     size_t want = count;
     if (wshort > 0 && (size_t)wshort < want) want = wshort;
     if (wfail >= 0) {
-        if (wdone >= wfail) { errno = ENOSPC; return -1; }
+        if (wdone >= wfail) { errno = werrno; return -1; }
         if ((long)want > wfail - wdone) want = wfail - wdone;
     }
     ssize_t n = real_write(fd, buf, want);
